@@ -43,7 +43,8 @@ type site struct {
 	name  string
 	typ   reflect.Type
 	isNil bool
-	n     int // slice length
+	empty bool // non-nil nested message without content (nil-ing it is not a semantic change)
+	n     int  // slice length
 	keys  []string
 }
 
@@ -53,6 +54,8 @@ func All(root proto.Message) []Mutant {
 	collect(reflect.ValueOf(root).Elem(), nil, "", &sites)
 	var out []Mutant
 	orig, _ := proto.Marshal(root)
+	origMsg := reflect.New(reflect.TypeOf(root).Elem()).Interface().(proto.Message)
+	proto.Unmarshal(orig, origMsg)
 	emit := func(s site, kind string, f func(v reflect.Value)) {
 		c := proto.Clone(root)
 		v := navigate(reflect.ValueOf(c).Elem(), s.path)
@@ -61,13 +64,13 @@ func All(root proto.Message) []Mutant {
 		if err != nil {
 			return
 		}
-		if string(buf) == string(orig) {
-			return // not a semantic change (nil vs empty ...)
-		}
 		// round trip so that the mutant looks like something received from the wire
 		w := reflect.New(reflect.TypeOf(root).Elem()).Interface().(proto.Message)
 		if proto.Unmarshal(buf, w) != nil {
 			return
+		}
+		if proto.Equal(w, origMsg) {
+			return // not a semantic change (nil vs empty, map order ...)
 		}
 		out = append(out, Mutant{Path: s.name, Kind: kind, Msg: w})
 	}
@@ -168,7 +171,7 @@ func All(root proto.Message) []Mutant {
 			})
 		case reflect.Ptr: // nested message
 			// (nil -> empty message is not a semantic change in proto3 and is not generated)
-			if !s.isNil {
+			if !s.isNil && !s.empty {
 				emit(s, "nil", func(v reflect.Value) { v.Set(reflect.Zero(v.Type())) })
 			}
 		}
@@ -288,7 +291,13 @@ func collectValue(f reflect.Value, p []step, n string, out *[]site) {
 		if f.Type().Elem().Kind() != reflect.Struct {
 			return
 		}
-		*out = append(*out, site{path: p, name: n, typ: f.Type(), isNil: f.IsNil()})
+		empty := false
+		if !f.IsNil() {
+			if m, ok := f.Interface().(proto.Message); ok && proto.Size(m) == 0 {
+				empty = true
+			}
+		}
+		*out = append(*out, site{path: p, name: n, typ: f.Type(), isNil: f.IsNil(), empty: empty})
 		if !f.IsNil() {
 			collect(f.Elem(), p, n, out)
 		}
@@ -313,6 +322,8 @@ func navigate(v reflect.Value, path []step) reflect.Value {
 // message (detects a digest that forgets a length prefix).
 func boundaryShifts(root proto.Message, orig []byte) []Mutant {
 	var out []Mutant
+	origMsg := reflect.New(reflect.TypeOf(root).Elem()).Interface().(proto.Message)
+	proto.Unmarshal(orig, origMsg)
 	var sites []site
 	collect(reflect.ValueOf(root).Elem(), nil, "", &sites)
 	isVar := func(s site) bool {
@@ -366,11 +377,11 @@ func boundaryShifts(root proto.Message, orig []byte) []Mutant {
 			set(va, ba)
 			set(vb, bb)
 			buf, err := proto.Marshal(c)
-			if err != nil || string(buf) == string(orig) {
+			if err != nil {
 				continue
 			}
 			w := reflect.New(reflect.TypeOf(root).Elem()).Interface().(proto.Message)
-			if proto.Unmarshal(buf, w) != nil {
+			if proto.Unmarshal(buf, w) != nil || proto.Equal(w, origMsg) {
 				continue
 			}
 			out = append(out, Mutant{Path: a.name + "|" + b.name, Kind: fmt.Sprintf("boundary-shift-%d", dir), Msg: w})
